@@ -2,3 +2,7 @@ import Gomjml.Props.C11
 #print axioms Gomjml.Props.C11.C11_classes
 #print axioms Gomjml.Props.C11.C11_width_encoded
 #print axioms Gomjml.Props.C11.C11_font_lookup
+#print axioms Gomjml.Props.C11.C11_search_reaches
+#print axioms Gomjml.Props.C11.C11_search_complete
+#print axioms Gomjml.Props.C11.C11_detection_covers_builders
+#print axioms Gomjml.Props.C11.C11_detectors
